@@ -144,7 +144,7 @@ fn def_of(x: &Sx) -> Result<Definition, String> {
     }
 }
 
-fn container_of(s: &str) -> Result<BorshSchemaContainer, String> {
+pub(crate) fn container_of(s: &str) -> Result<BorshSchemaContainer, String> {
     let l = match parse(s)? {
         Sx::L(l) if l.len() >= 2 => l,
         _ => return Err("container syntax".into()),
@@ -237,7 +237,7 @@ fn maxsize_s(c: &BorshSchemaContainer) -> String {
     }
 }
 
-fn validate_s(c: &BorshSchemaContainer) -> String {
+pub(crate) fn validate_s(c: &BorshSchemaContainer) -> String {
     match std::panic::catch_unwind(std::panic::AssertUnwindSafe(|| c.validate())) {
         Err(_) => "panic".to_string(),
         Ok(Ok(())) => "ok".to_string(),
